@@ -1,7 +1,4 @@
-use std::{
-    io::{BufRead, ErrorKind, Result as IoResult},
-    slice,
-};
+use std::io::{BufRead, ErrorKind, Result as IoResult};
 
 use super::encoding::Encoding;
 
@@ -56,12 +53,30 @@ impl<R: BufRead> Decoder<R> {
         // Reading up to b'\n' will miss the final b'\0' for an UTF-16LE encoded
         // string so we need to read an additional byte.
         if self.encoding == Encoding::Utf16LE && self.read_buf.ends_with(b"\n") {
-            let mut byte = 0;
-            self.inner.read_exact(slice::from_mut(&mut byte))?;
-            self.read_buf.push(byte);
+            // The input may end right after the line feed's low byte.
+            if let Some(byte) = self.next_byte()? {
+                self.read_buf.push(byte);
+            }
         }
 
         Ok(Some(self.curr_line()))
+    }
+
+    /// Reads a single byte; `None` at the end of the input.
+    fn next_byte(&mut self) -> IoResult<Option<u8>> {
+        let byte = loop {
+            match self.inner.fill_buf() {
+                Ok(buf) => break buf.first().copied(),
+                Err(ref err) if err.kind() == ErrorKind::Interrupted => continue,
+                Err(err) => return Err(err),
+            }
+        };
+
+        if byte.is_some() {
+            self.inner.consume(1);
+        }
+
+        Ok(byte)
     }
 
     pub fn curr_line(&mut self) -> &str {
